@@ -81,7 +81,7 @@ def main():
             if len(f) >= 5:
                 results[f[0]] = f
     names = sorted(d for d in os.listdir(os.path.join(HERE, "seeded"))
-                   if os.path.isdir(os.path.join(HERE, "seeded", d)))
+                   if os.path.isdir(os.path.join(HERE, "seeded", d)) and not d.startswith("_"))
     out = ["# Seeded property-breaking changes", "",
            "Each directory holds `patch.diff` (against /repo HEAD at adoption), the seeder's stand-alone",
            "demonstration and `meta.json`. The changes were written by fresh sub-agents that saw only the",
